@@ -1,6 +1,6 @@
 """shared pieces of the per-property check modules"""
 from pyvc import runner as Rn
-from pyvc.runner import FuncUnit, LemmaUnit, BoundedUnit
+from pyvc.runner import FuncUnit, LemmaUnit, BoundedUnit, RuntimeContractUnit
 import contracts
 
 contracts.load_all()
